@@ -785,7 +785,7 @@ func TestVerifC19DeviceRestart(t *testing.T) {
 	pl, suit := c19Plugin(t)
 	ctx := context.TODO()
 	devIndexer := suit.koordinatorSharedInformerFactory.Scheduling().V1alpha1().Devices().Informer().GetIndexer()
-	kit.Run(t, kit.Config{Property: "C19", Unit: "device-restart", Quick: 3000, Thorough: 60000,
+	kit.Run(t, kit.Config{Property: "C19", Unit: "device-restart", Quick: 5000, Thorough: 80000,
 		Rule: "histories of 10-60 operations on 2 nodes (0-8 GPUs, 0-4 RDMA NICs with 0-3 VFs, 0-2 FPGAs, with or without PCIe/NUMA topology) of the real deviceshare Plugin: schedule a pod or reservation (PreFilter, Filter, Reserve; whole / fractional / multi / shared GPU, memory in bytes, RDMA, FPGA, combined, joint, VF, topology scope, apply-for-all), PreBind + bind, unreserve, metadata update, terminate, delete, informer echo to the live scheduler; cut after a bind; in-flight objects unreserved; surviving objects replayed into a fresh nodeDeviceCache (Devices, then reservations, then pods; random order within a kind; 20% duplicate adds, 20% no-op updates; watch events after the snapshot); live vs replayed device summary and VF ledger compared; distinct = (object kind, request class, allocation arity per type, VF?, outcome) and (replay event kind, kind of object); non-trivial = at least two surviving allocations on one node and at least one allocation of the history that does not survive"},
 		func(c *kit.Case) {
 			r := c.R
